@@ -13,6 +13,7 @@ def check_c14(ctx):
     for i, g in enumerate(gen):
         scn.append({"id": i + 1, "apps": ["A", "B", "C", "D", "E"], "calls": sorted(g["calls"]), "listed": sorted(g["listed"]),
                     "excl": sorted(g["excl"]), "pass": sorted(g["pass"]), "view": g["view"],
+                    "human": sorted(g["human"]), "hid": sorted(g["hid"]),
                     "views": [{"listed": sorted(g["listed2"]), "excl": sorted(set(g["excl2"]) - set(g["listed2"])),
                                "pass": sorted(g["pass2"])}] if i % 2 == 0 else [],
                     "mermaid": i % 3 == 0})
@@ -45,8 +46,8 @@ def check_c14(ctx):
             names = [sig]
         else:
             continue
-        what = "%s for calls=%s listed=%s exclude=%s passthrough=%s view=%s; got %s" % (
-            names, s["calls"], s["listed"], s["excl"], s["pass"], s["view"], json.dumps([e for e in evs.get(p["t"], []) if e["e"] != "begin"])[:500])
+        what = "%s for calls=%s listed=%s exclude=%s passthrough=%s human=%s hidden-endpoint=%s view=%s; got %s" % (
+            names, s["calls"], s["listed"], s["excl"], s["pass"], s["human"], s["hid"], s["view"], json.dumps([e for e in evs.get(p["t"], []) if e["e"] != "begin"])[:500])
         core.add_violation(ctx, sig, what, {"family": "ints", "scenario": s})
     shapes = {json.dumps([s[k] for k in ("calls", "listed", "excl", "pass", "view")]) for s in scn}
     cov = {"states": mc.distinct, "transitions": mc.generated, "traces_validated_against_impl": len(scn),
@@ -56,7 +57,7 @@ def check_c14(ctx):
         "one endpoint per application, calls at top level and nested in if / for each / one of / until / group; 5 applications",
         "listed and excluded sets are disjoint; the project application is excluded as the command does when --exclude is empty",
         "plain and clustered views: arrows are also read back from the PlantUML text; endpoint-analysis view: the dependency list only",
-        "~human applications and ~hidden endpoints are not generated yet",
+        "up to one ~human application and one application with a ~hidden endpoint per model (two marks in all)",
     ])
 
 
